@@ -1,6 +1,7 @@
 import XsVerif.Driver.Util
 import XsVerif.Model.Datatypes
 import XsVerif.Model.DatatypesDate
+import XsVerif.Model.DatatypesEnc
 import XsVerif.Generated.Builtins
 open Lean XsVerif.Driver XsVerif.Datatypes
 
@@ -193,7 +194,7 @@ def conv (P : Nat → Str → Option Bool) : Conv where
   fltOk := fun t => (P 0 t).getD false   -- Python float(): oracle id 0 (see harness)
   bool := lookupBool XsVerif.Generated.booleanMap
 
-def handle (j : Json) : Except String Json := do
+def handleDecode (j : Json) : Except String Json := do
   let W := if (← getStr j "wsclass") == "py" then isPyWs else isXmlWs
   let v11 ← getBool j "v11"
   let pats ← (← getArr j "pats").toList.mapM fun e => do
@@ -216,6 +217,82 @@ def handle (j : Json) : Except String Json := do
     ("collapse", sJson (wsCollapse W text)),
     ("replace", sJson (wsReplace W text)),
     ("words", Json.arr ((words W text).map sJson).toArray)]
+
+
+/-! unit operations: one model function per request, compared by the harness with the function of /repo
+    it ports (`op` field; requests without `op` are full decodes) -/
+
+def decJson (d : Dec) : Json := Json.arr #[d.neg, Json.str (toString d.coef), d.scale]
+
+def pairJson (p : Nat × Nat) : Json := Json.arr #[p.1, p.2]
+
+def dtJson (v : DtVal) : Json := avalJson (.dt v)
+
+/-- `hexOctets` of Lemmas/DatatypesBin.lean is proof-side; the driver reports the literal only -/
+def handleOp (op : String) (j : Json) : Except String Json := do
+  match op with
+  | "ws" =>
+    let text ← getS j "text"
+    return Json.mkObj [
+      ("collapse", sJson (wsCollapse isXmlWs text)),
+      ("replace", sJson (wsReplace isXmlWs text)),
+      ("words", Json.arr ((words isXmlWs (wsCollapse isXmlWs text)).map sJson).toArray)]
+  | "dec" =>
+    let text ← getS j "text"
+    match parseDec text with
+    | none => return Json.mkObj [("val", Json.null)]
+    | some d =>
+      return Json.mkObj [
+        ("val", decJson d),
+        ("str", sJson (reprStr d.neg (decRepr (natDigits d.coef) d.scale))),
+        ("plain", sJson (decPlain d)),
+        ("digits", pairJson (countDigitsDec true d)),
+        ("reparse", match parseDec (decPlain d) with | some e => decJson e | none => Json.null)]
+  | "int" =>
+    let text ← getS j "text"
+    match parseInt text with
+    | none => return Json.mkObj [("val", Json.null)]
+    | some i =>
+      return Json.mkObj [
+        ("val", Json.str (toString i)),
+        ("enc", sJson (intToStr i)),
+        ("digits", pairJson (countDigitsInt i))]
+  | "cmp" =>
+    let a ← getS j "a"
+    let b ← getS j "b"
+    match parseDec a, parseDec b with
+    | some x, some y => return Json.mkObj [("lt", x.lt y), ("le", x.le y), ("eq", x.eqv y)]
+    | _, _ => return Json.mkObj [("lt", Json.null)]
+  | "hex" =>
+    let text := epCollapse (← getS j "text")
+    if hexOk text then
+      return Json.mkObj [("ok", true), ("len", (Val.len? (.atom (.hex text))).getD 0), ("enc", sJson (encHex text))]
+    else return Json.mkObj [("ok", false)]
+  | "b64" =>
+    let text := epCollapse (← getS j "text")
+    match parseB64 text with
+    | none => return Json.mkObj [("ok", false)]
+    | some t =>
+      return Json.mkObj [("ok", true), ("val", sJson t), ("len", b64Len t), ("enc", sJson (encB64 t)),
+        ("reparse", match parseB64 (encB64 t) with | some u => sJson u | none => Json.null)]
+  | "bool" =>
+    let text ← getS j "text"
+    match lookupBool XsVerif.Generated.booleanMap text with
+    | none => return Json.mkObj [("val", Json.null)]
+    | some b => return Json.mkObj [("val", b), ("enc", sJson (encBool b))]
+  | "date" =>
+    let text ← getS j "text"
+    let v11 ← getBool j "v11"
+    -- `fromstring` starts with `datetime_string.strip()` (Python's white-space class)
+    match parseDt .date v11 (strip isPyWs text) with
+    | none => return Json.mkObj [("val", Json.null)]
+    | some v => return Json.mkObj [("val", dtJson v), ("str", sJson (dateStr v11 v))]
+  | _ => throw s!"op {op}"
+
+def handle (j : Json) : Except String Json :=
+  match j.getObjVal? "op" with
+  | .ok (.str op) => handleOp op j
+  | _ => handleDecode j
 
 end XsVerif.Driver.C02
 
